@@ -5,6 +5,7 @@ package conversion
 // Contracts for the verifier in /verif (comment-only file; no declarations).
 
 //@ func fixedPartition(input, fraction, output1, output2)
+//@   locals nDays, idx, i, incoming
 //@   canary [C16.canary-partition] implies(input.len > 0, output1.at(0) == output2.at(0))
 //@   kernel
 //@   states none
@@ -20,6 +21,7 @@ package conversion
 //@   loop 0 invariant forall(t, 0, i, output1.at(t) == input.at(t)*fraction)
 
 //@ func variablePartition(input, fraction, output1, output2)
+//@   locals nDays, idx, i, incoming, frac
 //@   kernel
 //@   states none
 //@   noalias
@@ -33,6 +35,7 @@ package conversion
 //@   loop 0 invariant forall(t, 0, i, output1.at(t) == input.at(t)*fraction.at(t))
 
 //@ func applyScaling(input, scale, output)
+//@   locals nDays, idx, i, incoming
 //@   kernel
 //@   states none
 //@   noalias
@@ -45,6 +48,7 @@ package conversion
 //@   loop 0 invariant forall(t, 0, i, output.at(t) == input.at(t)*scale)
 
 //@ func depthToRate(inputs, deltaT, area, outflows)
+//@   locals conversion, nDays, idx, i
 //@   kernel
 //@   states none
 //@   noalias
@@ -57,6 +61,7 @@ package conversion
 //@   loop 0 invariant forall(t, 0, i, outflows.at(t) == inputs.at(t) * (0.001 * area / deltaT))
 
 //@ func ratingPartition(input, nPts, inputAmount, proportion, output1, output2)
+//@   locals nDays, idx, i, incoming, frac, err
 //@   kernel
 //@   states none
 //@   noalias
